@@ -1,35 +1,19 @@
-use crate::c05_update::*;
-use cascette_client_storage::index::update::*;
+use std::collections::BTreeMap;
 
 // @harness prop=C05 tier=thorough timeout=300 role=diag
 #[kani::proof]
-#[kani::unwind(10)]
+#[kani::unwind(6)]
 fn c05_diag_a() {
-    // concrete entries: are the loops decided?
-    let mut s = UpdateSection::new();
-    let e = any_entry();
-    s.append(e.clone());
-    s.append(e.clone());
-    s.append(e.clone());
-    assert!(s.page_count() == 2);
-    assert!(s.entry_count() == 3);
-    std::mem::forget((s, e));
-}
-
-// @harness prop=C05 tier=thorough timeout=300 role=diag
-#[kani::proof]
-#[kani::unwind(10)]
-fn c05_diag_b() {
-    let mut v: Vec<Vec<u32>> = Vec::new();
     let x: u32 = kani::any();
-    v.push(vec![x, x]);
-    v.push(vec![x]);
+    let mut m: BTreeMap<u8, (usize, Vec<u32>)> = BTreeMap::new();
+    m.insert(1, (2, Vec::with_capacity(2)));
+    let e = m.get_mut(&1).unwrap();
+    let mut i = 0;
     let mut n = 0;
-    for p in v.iter().rev() {
-        for q in p.iter().rev() {
-            if *q == 7 { n += 1; }
-        }
+    while i < e.0 {
+        if x == i as u32 { n += 1; }
+        i += 1;
     }
-    assert!(n <= 3);
-    std::mem::forget(v);
+    assert!(n <= 2);
+    std::mem::forget(m);
 }
